@@ -154,8 +154,11 @@ def h_history(threshold: int, qs: List[bool], summaries: List[str], second_kind:
     return run(body_history, threshold, qs, summaries, second_kind, writes, kindf, text)
 
 
-_B = {"quick": {"slen": 2, "tmax": 1, "nq": 6}, "thorough": {"slen": 3, "tmax": 6, "nq": 9}}
-_PAIRS_Q = [("prop-text", "comp"), ("comp-range", "prop-present"), ("prop-undef", "prop-range"), ("comp-undef", "range+text")]
+_B = {"quick": {"slen": 2, "tmax": 2, "nq": 6}, "thorough": {"slen": 3, "tmax": 6, "nq": 9}}
+# (the last quick pair shares the key P=DTSTART while comp-range needs further keys: their request counters
+# cross the threshold at different queries)
+_PAIRS_Q = [("prop-text", "comp"), ("comp-range", "prop-present"), ("prop-undef", "prop-range"), ("comp-undef", "range+text"),
+            ("comp-range", "prop-range")]
 _PAIRS_T = _PAIRS_Q + [("prop-text", "prop-text"), ("param-text", "comp"), ("comp", "comp-undef"), ("prop-range", "comp-range")]
 
 HARNESSES = [
